@@ -126,6 +126,11 @@ def describe(pid, cfg, w, ctx):
         rep['first_result'] = tok_sc(w['expected'], en)
         rep['model_actual'] = tok_sc(w['actual'], en)
         rep['expected'] = "the counterpart of " + tok_sc(w['expected'], en)
+        if kind == 'c13' and os.path.exists(ctx.HARNESS):
+            # the other stream too: the deviation may sit on either side
+            rc1, out1, dt1 = ctx.sh([ctx.HARNESS, 'replay', 'bytes', fs, ','.join(str(x) for x in first)])
+            rep['first_crate_actual'] = out1.strip()
+            rep['first_harness_cmd'] = ['replay', 'bytes', fs, ','.join(str(x) for x in first)]
     elif kind == 'evstep':
         bits, mode = inp[0], inp[1]
         def tok_step(code):
@@ -172,4 +177,7 @@ def describe(pid, cfg, w, ctx):
             ma = None
             rep['note'] = 'start state not reached by the canonical construction; not confirmed either way'
         rep['confirmed_on_crate'] = (got.split(' ')[-1] == ma or got.endswith(' ' + ma) or got == ma) if ma else None
+        if rep.get('first_crate_actual') is not None and rep['confirmed_on_crate']:
+            g1 = rep['first_crate_actual']
+            rep['confirmed_on_crate'] = (g1.split(' ')[-1] == rep['first_result'] or g1 == rep['first_result'])
     return rep
